@@ -23,14 +23,18 @@ void verif_post(const char *op, const volatile void *addr, int order, unsigned l
 	verif_pre("load", (p), __ATOMIC_SEQ_CST, __FILE__, __LINE__); \
 	__auto_type v_ = __atomic_load_n((p), __ATOMIC_SEQ_CST); \
 	verif_post("load", (p), __ATOMIC_SEQ_CST, v_, v_); v_; })
+/* operands are evaluated BEFORE the scheduling hook of the operation, as in C (an operand may itself contain an atomic
+ * operation, e.g. atomic_store(x, atomic_load(x) + 1): the yield point of the store must lie between the load and the store) */
 #define atomic_store(p, v) __extension__({ \
+	__auto_type sv_ = (v); \
 	verif_pre("store", (p), __ATOMIC_SEQ_CST, __FILE__, __LINE__); \
 	__auto_type b_ = __atomic_load_n((p), __ATOMIC_RELAXED); \
-	__atomic_store_n((p), (v), __ATOMIC_SEQ_CST); \
+	__atomic_store_n((p), sv_, __ATOMIC_SEQ_CST); \
 	verif_post("store", (p), __ATOMIC_SEQ_CST, b_, __atomic_load_n((p), __ATOMIC_RELAXED)); })
 #define VERIF_RMW(name, builtin, p, v) __extension__({ \
+	__auto_type rv_ = (v); \
 	verif_pre(name, (p), __ATOMIC_SEQ_CST, __FILE__, __LINE__); \
-	__auto_type o_ = builtin((p), (v), __ATOMIC_SEQ_CST); \
+	__auto_type o_ = builtin((p), rv_, __ATOMIC_SEQ_CST); \
 	verif_post(name, (p), __ATOMIC_SEQ_CST, o_, __atomic_load_n((p), __ATOMIC_RELAXED)); o_; })
 #define atomic_fetch_add(p, v) VERIF_RMW("fetch_add", __atomic_fetch_add, p, v)
 #define atomic_fetch_sub(p, v) VERIF_RMW("fetch_sub", __atomic_fetch_sub, p, v)
@@ -39,9 +43,10 @@ void verif_post(const char *op, const volatile void *addr, int order, unsigned l
 /* the weak form is executed as a strong CAS: under the baton no other thread runs, so a failure is a real one
  * (spurious failures are covered by the Lean model's `spurious` flag, not by the replay) */
 #define VERIF_CAS(p, e, d) __extension__({ \
+	__auto_type cd_ = (d); \
 	verif_pre("cas", (p), __ATOMIC_SEQ_CST, __FILE__, __LINE__); \
 	__auto_type ex_ = *(e); \
-	_Bool ok_ = __atomic_compare_exchange_n((p), (e), (d), 0, __ATOMIC_SEQ_CST, __ATOMIC_SEQ_CST); \
+	_Bool ok_ = __atomic_compare_exchange_n((p), (e), cd_, 0, __ATOMIC_SEQ_CST, __ATOMIC_SEQ_CST); \
 	verif_post(ok_ ? "cas_ok" : "cas_fail", (p), __ATOMIC_SEQ_CST, ex_, __atomic_load_n((p), __ATOMIC_RELAXED)); ok_; })
 #define atomic_compare_exchange_weak(p, e, d) VERIF_CAS(p, e, d)
 #define atomic_compare_exchange_strong(p, e, d) VERIF_CAS(p, e, d)
